@@ -135,6 +135,17 @@ func cfgFor(profile string, i int) map[string]interface{} {
 		return map[string]interface{}{"vstorThreshold": 1000000}
 	}
 	if profile == "reward" {
+		switch i % 6 {
+		case 3:
+			// 30 000 coins before the first halving point of the subsidy (TOTAL_REWARD / 2): the age goes 0 -> 1 in the trace
+			return map[string]interface{}{"blockReward": 2520, "baseline": 0, "rewardBase": "199999999970000"}
+		case 4:
+			// everything has been minted already: no subsidy at all
+			return map[string]interface{}{"blockReward": 2520, "baseline": 0, "rewardBase": "400000000000000"}
+		case 5:
+			// between the second and the third halving point: a quarter of the subsidy
+			return map[string]interface{}{"blockReward": 2520, "baseline": 0, "rewardBase": "310000000000000"}
+		}
 		if i%3 == 2 {
 			// below the baseline: the per-block reward is capped by pledged * apy / (halving/2)
 			return map[string]interface{}{"blockReward": 840, "baseline": 1000, "apy": "600", "halvingPeriod": 20}
@@ -153,9 +164,10 @@ func cfgFor(profile string, i int) map[string]interface{} {
 func versionProfile() chain.Profile {
 	p := payProfile()
 	p.Name = "version"
+	p.Gateways = []string{"a01", "a02"} // concurrent updates arrive through different gateways
 	p.MaxData = 2
 	p.Weights = map[string]int{"Blocks": 12, "StoreNew": 4, "StoreUpdate": 24, "Complete": 40, "Cancel": 3, "Terminate": 1,
-		"Renew": 12, "Migrate": 3, "Claim": 2}
+		"Renew": 12, "Migrate": 3, "Claim": 2, "Permission": 4} // grantees update concurrently with the owner
 	p.Sizes = []int64{1000, 5000}
 	p.Durs = []int64{3600, 7200}
 	p.Timeouts = []int64{20, 1800}
